@@ -109,7 +109,7 @@ CLAIMED = {
             "The validity guarantees of the statement (acyclic spreads, defined variables, leaf/composite selections) are validation verdicts and are not decided, except the memo-scope condition that makes `every used variable is defined` hold for fragments shared between operations.",
             "local-identity provenance over typed HIR, decision tables from MIR path enumeration, dominating-edge facts, who-writes on a struct field", False),
     "C11": ("other",
-            "Location provenance of the CST->AST conversion (only location-carrying constructors; at all 28 with_location sites the syntax node and the converted value come from the same CST node; the conversion's own file id), the Name span (NAME node, first token text; start offset and tag-preserving file id stored; location() rebuilt from them), the unit of LineColumn.column (must derive from a character count, not from a byte offset - the byte-column defect was found by this rule and repaired), the separator set of the line counter (not ariadne's seven-separator table; only LF and CR are compared - also found and repaired), and the source of JSON error locations.",
+            "Location provenance of the CST->AST conversion (only location-carrying constructors; at all 28 with_location sites the syntax node and the converted value come from the same CST node; the conversion's own file id), the Name span (NAME node, first token text; start offset and tag-preserving file id stored; location() rebuilt from them), the unit of LineColumn.column (must derive from a character count, not from a byte offset - the byte-column defect was found by this rule and repaired), the separator set of the line counter (not ariadne's seven-separator table; the CRLF look-ahead reads the whole source text rather than the prefix cut at the offset; only LF and CR are compared - also found and repaired), and the source of JSON error locations.",
             "Decides provenance and units, not the numeric values of positions. Later stages (schema/executable) clone the located nodes; that they do is not re-derived.",
             "access-path provenance over rustc MIR (symbolic operands), who-calls on location-less constructors, backward may-derive slice for units and line separators", False),
     "C17": ("other",
@@ -117,11 +117,11 @@ CLAIMED = {
             "Presence of a handler per rule is a necessary condition only; that each handler's condition equals the spec's, i.e. verdict agreement with graphql-js, is not decided (not decidable by this family).",
             "call-graph reachability from entry points to diagnostic construction sites (aggregates in MIR) against a rule->variant registry; who-writes / provenance for the memo scope", False),
     "C32": ("other",
-            "The determinism sentence decided structurally over all 517 library functions of apollo-smith (no entropy source other than the caller's Unstructured / RandomProvider; no std HashMap/HashSet iteration into output except one allow-listed infeasible fallback), plus four structural conditions of validity: the interface-field backfill, which reads only direct parents, iterates a topological (parents-first) order of the implements graph; type_name() returns only names that passed the `not yet used` loop and records them; the name alphabets are inside the GraphQL Name grammar; unused fragments are pruned by reachability from operations.",
+            "The determinism sentence decided structurally over all 517 library functions of apollo-smith (no entropy source other than the caller's Unstructured / RandomProvider; no std HashMap/HashSet iteration into output except one allow-listed infeasible fallback), plus structural conditions of validity (object / interface extensions are told which type they extend, so an interface already implemented is not picked again - a genuine defect found and repaired; reachable_fragment_names is a fixpoint, worklist or repeat-while-changed, not one pass over the definitions): the interface-field backfill, which reads only direct parents, iterates a topological (parents-first) order of the implements graph; type_name() returns only names that passed the `not yet used` loop and records them; the name alphabets are inside the GraphQL Name grammar; unused fragments are pruned by reachability from operations.",
             "That every generated document parses and validates is not decided. arbitrary::Unstructured and petgraph::toposort are trusted.",
             "resolved-callee inventory over rustc MIR, loop-source provenance (may-derive slice), dominating-edge facts, const evaluation", False),
     "C33": ("other",
-            "Structural conditions of the generated response shape: collect_fields groups by alias-or-name and recurses into fragments with the same concrete type under a type-condition test on that concrete type; type_condition_matches as a decision table; one concrete type per selection set feeds both field collection and __typename; nulls only under a nullability test; the count and pick passes over an interface's implementers filter identically; union members / enum values are picked from the type's own collection; list values must be generated from the list's item type (the flat generation of nested lists is reported: two known findings).",
+            "Structural conditions of the generated response shape: collect_fields groups by alias-or-name, recurses into fragments with the same concrete type under a type-condition test on that concrete type, and appends what a fragment contributes to the group already collected under the same response key (never IndexMap::extend / insert, which replace it); type_condition_matches as a decision table; one concrete type per selection set feeds both field collection and __typename; nulls only under a nullability test; the count and pick passes over an interface's implementers filter identically; union members / enum values are picked from the type's own collection; list values must be generated from the list's item type (the flat generation of nested lists is reported: two known findings).",
             "The shape of generated data and re-execution over it are not decided. Known findings: generate_field_value flattens nested list types, see known_findings.json.",
             "decision tables and dominating-edge facts over rustc MIR, typed-HIR guard shape, sibling closure comparison", False),
     "C08": ("other",
